@@ -409,7 +409,15 @@ pub fn gen_c03(rng: &mut Rng) -> E2eScript {
         None => rng.usize(0, 14),
     };
     let big_ok = batching.is_none() && rng.chance(1, 20);
-    let payloads = (0..n).map(|_| (gen_size(rng, big_ok), rng.next())).collect();
+    let mut payloads: Vec<(usize, u64)> = (0..n).map(|_| (gen_size(rng, big_ok), rng.next())).collect();
+    // rarely: a batch whose members are individually fine but together outgrow the frame limit
+    if let Some((size, _)) = batching {
+        if size >= 3 && size <= 10 && rng.chance(1, 25) {
+            for p in payloads.iter_mut() {
+                p.0 = *rng.pick(&[150_000usize, 300_000, 400_000]);
+            }
+        }
+    }
     let pattern = *rng.pick(&[Pattern::SendEach, Pattern::SendEach, Pattern::FeedThenFlush, Pattern::FeedThenFinish, Pattern::SendAll]);
     let gaps_ms = if rng.chance(1, 2) { vec![] } else { (0..rng.usize(1, 4)).map(|_| *rng.pick(&[0u64, 0, 1, 50, 150, 2000])).collect() };
     E2eScript { net: mild_net(rng), rt_seed: rng.next(), streams: vec![StreamSpec { codec, comp, batching, n_subs: rng.usize(1, 2), payloads, pattern, gaps_ms }] }
